@@ -394,6 +394,12 @@ def run_case(case_name, fn, cfg, opts):
         cover_expect.update(expect_)
         res.notes.update(notes)
         for ob in obls:
+            if len(res.violations) >= opts.get('max_violations_per_case', 4):
+                # the configuration is refuted (each violation replayed on
+                # the float code): the remaining obligations are not worth
+                # their replays
+                res.stopped_early = True
+                break
             kind, label = ob[0], ob[1]
             res.obligations += 1
             if kind == 'fact':
